@@ -13,7 +13,7 @@ from .. import build as B
 PROPERTY = "C16"
 LEVEL = "exploration"
 VARIANTS = ["fast"]
-RULE = ("6 mapping configurations x 7 path prefixes x 24 remainders (+ absolute physical forms) x 5 requesters (script operators, #include at "
+RULE = ("9 mapping configurations x 9 path prefixes x 24 remainders (+ absolute physical forms) x 5 requesters (script operators, #include at "
         "depth 1 and 2); a case = (configuration, requester, path); non-trivial = path contains a `..`, `.`, backslash, duplicate separator or "
         "the configuration has nested / multi-root prefixes; distinct by case")
 ASSUMPTIONS = [
@@ -38,8 +38,12 @@ CONFIGS = {
     "x=r2,r1": [("/x", "r2"), ("/x", "r1")],
     "x=r1;x/y=r3": [("/x", "r1"), ("/x/y", "r3")],
     "root=r2;x=r1": [("/", "r2"), ("/x", "r1")],
+    # a prefix that is a string prefix of another one but not a path prefix; an unmapped parent; three levels
+    "x=r1;xy=r3": [("/x", "r1"), ("/xy", "r3")],
+    "q=r1;x/y=r3": [("/q", "r1"), ("/x/y", "r3")],
+    "x=r1;x/y=r3;x/y/deep=r2": [("/x", "r1"), ("/x/y", "r3"), ("/x/y/deep", "r2")],
 }
-PREFIXES = ["/x/", "/", "x/", "", "/x/y/", "\\x\\", "//x//"]
+PREFIXES = ["/x/", "/", "x/", "", "/x/y/", "\\x\\", "//x//", "/xy/", "/x/y/deep/"]
 REMAINDERS = ["f.sqf", "sub/f.sqf", "sub/../f.sqf", "./f.sqf", "sub/./g.sqf", "y/f.sqf", "y/../f.sqf", "../f.sqf", "../bait/secret.sqf",
               "sub/../../bait/secret.sqf", "../../f.sqf", "sub//f.sqf", "sub\\f.sqf", "only2.sqf", "sub/h.sqf", "nope.sqf", "y/deep/../f.sqf",
               "y/deep/../../f.sqf", "deep/f.sqf", "z.sqf", "../x/f.sqf", "sub/../sub/../f.sqf", "..\\bait\\secret.sqf", "sub/../../r2/only2.sqf"]
